@@ -86,6 +86,51 @@ Corollary gridres_roundtrip_counts : forall (s : space R) res,
   ax_n (fst (of_sd (to_sd (fs_res s res)))) = res /\ ax_n (snd (of_sd (to_sd (fs_res s res)))) = res.
 Proof. intros [[[x0 x1] nx] [[y0 y1] ny]] res. split; reflexivity. Qed.
 
+(* the three representations: fs_res / sd_res / ws_res are, by definition, the three GENERATED set_resolution functions applied to the
+   six components of a space (on_space); since the three generated functions coincide, so do they — and the grid statements hold for
+   FrequencySpace, SumDiffFrequencySpace and WavelengthSpace alike *)
+Lemma gridres_three_spaces : forall (T : Type) (s : space T) res, sd_res s res = fs_res s res /\ ws_res s res = fs_res s res.
+Proof. intros T [[[x0 x1] nx] [[y0 y1] ny]] res. split; reflexivity. Qed.
+
+Theorem gridres_grid_all : forall (s : space R) res,
+  length (on_space (seq2d Rops) (fs_res s res)) = (res * res)%nat /\
+  length (on_space (seq2d Rops) (sd_res s res)) = (res * res)%nat /\
+  length (on_space (seq2d Rops) (ws_res s res)) = (res * res)%nat.
+Proof.
+  intros s res. destruct (gridres_three_spaces R s res) as [-> ->]. pose proof (gridres_seq_length s res). repeat split; assumption.
+Qed.
+
+Definition first_point (s : space R) : R * R := on_space (fun a b n c d m => steps2d_value Rops a b n c d m 0) s.
+Definition last_point (s : space R) (res : nat) : R * R := on_space (fun a b n c d m => steps2d_value Rops a b n c d m (res * res - 1)) s.
+
+Theorem gridres_corners_all : forall (s : space R) res, (1 <= res)%nat ->
+  (first_point (fs_res s res) = (ax_lo (fst s), ax_lo (snd s)) /\ first_point (sd_res s res) = (ax_lo (fst s), ax_lo (snd s)) /\
+   first_point (ws_res s res) = (ax_lo (fst s), ax_lo (snd s))) /\
+  ((2 <= res)%nat ->
+   last_point (fs_res s res) res = (ax_hi (fst s), ax_hi (snd s)) /\ last_point (sd_res s res) res = (ax_hi (fst s), ax_hi (snd s)) /\
+   last_point (ws_res s res) res = (ax_hi (fst s), ax_hi (snd s))).
+Proof.
+  intros s res H1. destruct (gridres_three_spaces R s res) as [-> ->]. destruct (gridres_corners s res H1) as [A B]. split.
+  - repeat split; exact A.
+  - intro H2. repeat split; exact (B H2).
+Qed.
+
+(* an instance: 1500..1600 nm x 1500..1600 nm sampled 5 x 7, re-sampled at resolution 2: four points, corners kept *)
+Lemma gridres_example :
+  let s : space R := ((1500, 1600, 5%nat), (1500, 1600, 7%nat)) in
+  (1 <= 2)%nat /\ (2 <= 2)%nat /\ fs_res s 2 = ((1500, 1600, 2%nat), (1500, 1600, 2%nat)) /\
+  length (on_space (seq2d Rops) (sd_res s 2)) = 4%nat /\
+  first_point (ws_res s 2) = (1500, 1500) /\ last_point (ws_res s 2) 2 = (1600, 1600).
+Proof.
+  intro s. destruct (gridres_grid_all s 2) as (_ & L & _). destruct (gridres_corners_all s 2 ltac:(lia)) as [(_ & _ & F) Lst].
+  destruct (Lst ltac:(lia)) as (_ & _ & La).
+  repeat split; try lia; assumption.
+Qed.
+
+Print Assumptions gridres_three_spaces.
+Print Assumptions gridres_grid_all.
+Print Assumptions gridres_corners_all.
+Print Assumptions gridres_example.
 Print Assumptions gridres_same.
 Print Assumptions gridres_counts_ranges.
 Print Assumptions gridres_len.
